@@ -100,7 +100,8 @@ class Node:
             return cast(float, _yaml_constructor.construct_yaml_float(
                 self.yaml_node))
         if self.yaml_node.tag == 'tag:yaml.org,2002:bool':
-            return self.yaml_node.value in ['TRUE', 'True', 'true']
+            return cast(bool, _yaml_constructor.bool_values.get(
+                str(self.yaml_node.value).lower(), False))
         if self.yaml_node.tag == 'tag:yaml.org,2002:null':
             return None
         raise RuntimeError('This node with tag "{}" is not of the right type'
